@@ -596,6 +596,10 @@ class PythonTypesBackend(CodeBackend):
             if is_nullable_type(field.data_type):
                 field_dt = field.data_type.data_type
                 dt_nullable = True
+            elif is_nullable_type(unwrap_aliases(field.data_type)[0]):
+                # An alias of a nullable type makes the field nullable too.
+                field_dt = unwrap_aliases(field.data_type)[0].data_type
+                dt_nullable = True
             else:
                 field_dt = field.data_type
                 dt_nullable = False
